@@ -37,7 +37,7 @@ def cases(tier, rng, dist):
         n = rng.randint(1, 40 if tier == "quick" else 60); x = rng.randint(0, n)
         yield {"n": n, "x": x, "cl": rng.choice(CLS), "alt": rng.choice(list(CALT)), "p": rng.choice([None, None, "0", "1/2", "1", "x/n", "1/1000"]),
                "kw": rng.choice([None, None, {"xtol": 1e-10}, {"rtol": 1e-10}, {"maxiter": 200}, {"xtol": 1e-13, "maxiter": 500}]),
-               "ntype": rng.choice([None, "int64", "int32", "uint16", "int64"])}
+               "ntype": rng.choice([None, "int64", "int32", "uint16", "int64", "arr0", "arr0"])}
     yield from big_cases(tier, rng)
 
 
@@ -64,11 +64,19 @@ def tails_big(n, x, p):
     return high(x), 1 - high(x + 1)
 
 
-def call(c, p="use", kw="use"):
+def count_objects(c):
+    """n and x in the form the caller holds them: ints, numpy integer scalars, or writable 0-d integer arrays ('arr0')"""
     n, x = c["n"], c["x"]
     nt = c.get("ntype")          # counts usually come out of numpy (arr.sum(), len): numpy integer scalars are integers too
+    if nt == "arr0":
+        return np.array(n), np.array(x)
     if nt:
-        n, x = getattr(np, nt)(n), getattr(np, nt)(x)
+        return getattr(np, nt)(n), getattr(np, nt)(x)
+    return n, x
+
+
+def call(c, p="use", kw="use", objs=None):
+    n, x = objs if objs is not None else count_objects(c)
     pp = c["p"] if p == "use" else p
     if pp == "x/n": pp = x / n
     elif pp is not None: pp = float(Fraction(pp))
@@ -78,6 +86,15 @@ def call(c, p="use", kw="use"):
 
 def run(c):
     out = {}
+    if c.get("ntype") == "arr0":
+        # ONE pair of count objects for the whole session: a call that fails (an undocumented keyword, one iteration only)
+        # comes first and must leave them as they were; every later call uses the same objects
+        objs = count_objects(c)
+        out["failing_first"] = [list(call(c, p=None, kw={"maxiter": 1}, objs=objs))[:2], list(call(c, p=None, kw={"tol": 1e-3}, objs=objs))[:2]]
+        out["r"] = list(call(c, objs=objs))
+        out["plain"] = list(call(c, p=None, kw=None, objs=objs))
+        out["objs_after"] = [int(objs[0]), int(objs[1])]
+        return out
     if c.get("big"):
         out["r"] = list(call(c))
         if c["p"] is not None:
@@ -113,6 +130,8 @@ def oracle(c, o):
     if r[0] != "ok":
         cls = "binom_conf_interval:kwargs" if c["kw"] else "binom_conf_interval:raises"
         return {"why": f"binom_conf_interval({c['n']}, {c['x']}, cl={c['cl']}, {c['alt']}, p={c['p']}, {c['kw']}) raised {r}", "cls": cls}
+    if "objs_after" in o and o["objs_after"] != [c["n"], c["x"]]:
+        return {"why": f"binom_conf_interval changed the caller's count objects (0-d arrays n={c['n']}, x={c['x']}) to {o['objs_after']} (a call that raised came first: {o['failing_first']})", "cls": "binom_conf_interval:input-modified"}
     L, U = r[1]
     n, x = c["n"], c["x"]; a = (1 - Fraction(c["cl"])); a = a / 2 if c["alt"] == "two-sided" else a
     if not (0 <= L <= U <= 1):
